@@ -253,6 +253,9 @@ func setAt(root Value, path []int, nv Value) Value {
 }
 
 func (e *Exec) load(p *Pointer) Value {
+	if e.curThread != 0 && p.obj != nil {
+		e.recordAccess("R", ptrLoc(p))
+	}
 	if p.bytes != nil {
 		return e.byteFromCode(mkToCode(mkAt(p.bytes.s, p.bidx)))
 	}
@@ -263,6 +266,9 @@ func (e *Exec) load(p *Pointer) Value {
 }
 
 func (e *Exec) store(p *Pointer, v Value) {
+	if e.curThread != 0 && p.obj != nil {
+		e.recordAccess("W", ptrLoc(p))
+	}
 	if p.bytes != nil {
 		e.unsupported("store into immutable symbolic byte slice")
 	}
